@@ -3,10 +3,14 @@
 Proof (Lean 4) about a line-by-line model of ampform's parity-partner naming and prefactor rule,
 tied to the working tree on every run:
 
-* T2: the model (`lean/Ampverif/Model/C03Parity.lean`, driven by `Drivers/C03.lean`) and the real
-  code are run on the same reactions (corpus + seeded synthetic + a shuffled naming-only stream),
-  under every naming-flag combination; mapping dict, coefficient symbol and prefactor (read off
-  `model.components`) are diffed. The prefactor-rule variant is inferred first by probes.
+* T2: the model (`lean/Ampverif/Model/C03Parity.lean` + `Model/C03ParityRule.lean`, driven by
+  `Drivers/C03.lean`) and the real code are run on the same reactions (corpus + seeded synthetic
+  + a shuffled naming-only stream + the repeated-decay class: chains in which the SAME two-body
+  decay occurs at two or three nodes, from qrules (chi_c0 -> omega omega/omega phi), deterministic
+  shapes and a seeded generator of twin subtrees), under every naming-flag combination; mapping
+  dict, coefficient symbol, prefactor (read off `model.components`) and the number of flipped
+  nodes repeating an earlier flipped suffix are diffed. The prefactor-rule variant (three
+  switches) is inferred first by probes, one per witness theorem.
 * T3: the Clebsch–Gordan table (spins <= 3) is regenerated from the installed SymPy into
   `Gen/C03CG.lean`; its mirror symmetry is re-checked by the kernel.
 * Independent oracles on the real code: (a) prefactor ratio of chains sharing a coefficient vs
@@ -20,6 +24,7 @@ from __future__ import annotations
 
 import cmath
 import math
+import time
 import traceback
 from collections import defaultdict
 from fractions import Fraction
@@ -32,13 +37,23 @@ SOURCES = ["src/ampform/helicity/__init__.py", "src/ampform/helicity/naming.py",
 PROP_MODULES = ["Ampverif.Props.C03"]
 DRIVER = "Ampverif/Drivers/C03.lean"
 MAX2 = 6  # doubled spin bound of the CG table (fixed: Lemmas/C03CGBlocks.lean names the blocks)
+# (perFlippedNode, guardOnFlipped, perNode) of Model/C03ParityRule.lean
 VARIANTS = {
-    "sound": (1, 1),
-    "guard-on-all-node-product (ef9564d)": (1, 0),
-    "all-node-product (before ef9564d)": (0, 0),
+    "sound": (1, 1, 1),
+    "guard-on-all-node-product (ef9564d)": (1, 0, 1),
+    "all-node-product (before ef9564d)": (0, 0, 1),
+    "factors-keyed-by-suffix (equal decays of one chain counted once)": (1, 1, 0),
 }
-PROBES = ["jpsi_sigma1750.hel.json", "chic1_n1440.hel.json"]
+# one probe per witness theorem of Props/C03.lean (C03_witness_all_nodes, _guard, _suffix_keyed)
+PROBES = ["jpsi_sigma1750.hel.json", "chic1_n1440.hel.json", "chic0_vv.hel.json"]
 PAIRS = ["jpsi_sigma1750", "chic1_n1440", "jpsi_n1520", "jpsi_gamma_pi0_pi0"]
+# (helicity reaction, canonical reaction) of the two-formalism oracle; the last ones contain chains in which the same
+# two-body decay occurs at two nodes
+ORACLE_B_PAIRS = [(f"{b}.hel.json", f"{b}.can.json") for b in PAIRS] + [
+    ("chic0_vv.hel.json", "chic0_vv.can.json"), ("rep_vv.hel", "rep_vv.can")]
+ORACLE_B_PAIRS_THOROUGH = [("rep_two_depths.hel", "rep_two_depths.can")]
+REPEATED_STREAM_BUDGET_S = 20.0  # wall-clock cap of the seeded repeated-decay stream in the quick tier (x5 thorough)
+REPEATED = "repeated"  # corpus/C03/repeated/: not globbed by the C02 harness, which reads corpus/C03/*.json
 
 
 def _cg_header() -> str:
@@ -133,17 +148,26 @@ def load_corpus(big: bool = False):
     # deterministic rare shapes (HARDENING rule 5): spins 3/2 and 2, three nodes with eta = (+1, -1, -1), chains flipped at
     # two nodes with unlike eta, identical particles in different branches, explicit L = 0
     out.update(L.shaped_reactions(big))
+    # chains in which the SAME two-body decay occurs at two (or more) nodes: chi_c0 -> omega omega / omega phi ->
+    # (gamma pi0)(gamma pi0) from qrules, and deterministic synthetic shapes (two twins, unlike eta, two depths)
+    for f in sorted((L.CORPUS / REPEATED).glob("*.json")):
+        out[f.name] = qrules.io.load(f)
+    out.update(L.repeated_decay_shapes(big))
     return out
 
 
-def infer_variant(chk: common.Check, corpus) -> tuple[str, tuple[int, int]]:
+def is_repeated_class(name: str) -> bool:
+    return name.startswith(("rep_", "chic0_vv"))
+
+
+def infer_variant(chk: common.Check, corpus) -> tuple[str, tuple[int, int, int]]:
     obs = []
     text = ""
     flags = (False, True, None)
     for name in PROBES:
         obs.append(L.observe(corpus[name], flags))
     for v in VARIANTS.values():
-        text += f"variant {v[0]} {v[1]}\n"
+        text += f"variant {v[0]} {v[1]} {v[2]}\n"
         for name in PROBES:
             text += L.lean_block(L.model_flags(flags), corpus[name].transitions)
     blocks = L.parse_lean_blocks(common.lean_run(DRIVER, text))
@@ -206,14 +230,20 @@ def naming_only_observation(transitions, flags, canonical, via_setters=False):
     return {"mapping": list(gen.parity_partner_coefficient_mapping.items()), "chains": chains}
 
 
-def correspondence(chk: common.Check, corpus, variant, rng, n_synth: int, n_shuffled: int, all_flags: bool):
+def correspondence(chk: common.Check, corpus, variant, rng, n_synth: int, n_shuffled: int, all_flags: bool,
+                   rng_repeated=None, n_repeated: int = 0):
     """Runs real code and model on the same cases; returns the list of (case, reaction, flags, obs)."""
     cases = []
-    text = f"variant {variant[0]} {variant[1]}\n"
+    text = f"variant {variant[0]} {variant[1]} {variant[2]}\n"
     dist = defaultdict(int)
 
+    seconds = defaultdict(float)
+
     def add(label, reaction, flags, kind):
+        t0 = time.monotonic()
         obs = L.observe(reaction, flags)
+        obs["repeated"] = L.repeated_flipped_count(obs["builder"].naming, reaction.transitions)
+        seconds[kind.split(":")[0]] += time.monotonic() - t0
         nonlocal text
         text += L.lean_block(L.model_flags(flags), reaction.transitions)
         cases.append({"label": label, "reaction": reaction, "flags": flags, "obs": obs, "kind": kind})
@@ -224,8 +254,11 @@ def correspondence(chk: common.Check, corpus, variant, rng, n_synth: int, n_shuf
         fl = L.flag_combinations(can)
         if not all_flags and can:
             fl = [f for f in fl if f in ((False, False, True), (False, True, False), (False, True, True), (True, True, False))]
+        if not all_flags and is_repeated_class(name):  # budget: the flags under which the partner mapping is active + default
+            fl = [(False, False, True), (False, True, False), (False, True, True)] if can \
+                else [(False, True, None), (True, True, None)]
         for flags in fl:
-            add(name, reaction, flags, "corpus")
+            add(name, reaction, flags, "repeated-decay-corpus" if is_repeated_class(name) else "corpus")
     n_ok = 0
     tries = 0
     while n_ok < n_synth and tries < 10 * n_synth:
@@ -248,6 +281,27 @@ def correspondence(chk: common.Check, corpus, variant, rng, n_synth: int, n_shuf
             add(f"synthetic#{tries}" + ("(malformed)" if mal else ""), reaction, flags, "malformed" if mal else "synthetic")
             cases[-1]["desc"] = desc
         dist[f"topology:{len(desc['particles'])}-edges"] += 1
+    # seeded stream of the repeated-decay class (own PRNG stream: the streams above are unchanged by it)
+    n_ok = tries = 0
+    budget = REPEATED_STREAM_BUDGET_S * (5 if all_flags else 1)
+    while rng_repeated is not None and n_ok < n_repeated and tries < 10 * n_repeated:
+        if seconds["repeated-decay-synthetic"] > budget:  # wall-clock cap of the stream (recorded, never a verdict)
+            dist["repeated-decay-synthetic:stopped-by-time-budget-after"] = n_ok
+            break
+        tries += 1
+        can = rng_repeated.random() < 0.25
+        reaction, desc = L.repeated_decay_reaction(rng_repeated, canonical=can)
+        if reaction is None:
+            continue
+        n_ok += 1
+        fl = L.flag_combinations(can)
+        if not all_flags:
+            fl = [(False, True, False), rng_repeated.choice([(False, True, True), (True, True, False), (False, False, True)])] \
+                if can else [(False, True, None), rng_repeated.choice([(True, True, None), (True, True, None), (False, False, None)])]
+        for flags in fl:
+            add(f"repeated#{tries}", reaction, flags, "repeated-decay-synthetic")
+            cases[-1]["desc"] = desc
+        dist[f"repeated-topology:{len(desc['particles'])}-edges:{len(desc['twin_subtrees'])}-twins"] += 1
     # naming-only stream: arbitrary registration order (ReactionInfo sorts its transitions, the
     # name generators accept any iterable)
     pool = [r for r in corpus.values()]
@@ -277,8 +331,17 @@ def correspondence(chk: common.Check, corpus, variant, rng, n_synth: int, n_shuf
         return cases
     n_bad = 0
     wf_false = 0
+    rep_cases = rep_nodes = 0
     for case, blk in zip(cases, blocks):
         d = diff_block(case["obs"], blk, names_only=case.get("names_only", False))
+        rep_real = case["obs"].get("repeated")
+        if d is None and rep_real is not None and blk.get("repeated") is not None and rep_real != blk["repeated"]:
+            d = {"what": "number of flipped nodes whose suffix occurred at an earlier flipped node of the same chain",
+                 "real": rep_real, "model": blk["repeated"]}
+        if rep_real:
+            rep_cases += 1
+            rep_nodes += rep_real
+            chk.count(("repeated-flipped-decay", case["label"], case["flags"]), n=0)
         nontriv = sum(1 for k, v in blk["mapping"] if k != v)
         key = (case["label"], case["flags"]) if nontriv else None
         chk.count(key)
@@ -291,8 +354,11 @@ def correspondence(chk: common.Check, corpus, variant, rng, n_synth: int, n_shuf
                 chk.broken_correspondence("model-vs-code", {"case": case["label"], "flags": case["flags"], **d})
     chk.info("correspondence_cases", len(cases))
     chk.info("correspondence_mismatches", n_bad)
+    chk.info("cases_with_one_decay_flipped_at_two_nodes_of_a_chain", rep_cases)
+    chk.info("flipped_nodes_repeating_an_earlier_flipped_suffix", rep_nodes)
     chk.info("cases_where_theorem_hypothesis_partnerInjective_is_false", wf_false)
     chk.info("input_distribution", dict(dist))
+    chk.info("seconds_formulating_per_stream", {k: round(v, 1) for k, v in seconds.items()})
     for case in cases[:1] + cases[-1:]:
         chk.sample({"case": case["label"], "flags": case["flags"], "mapping_head": case["obs"]["mapping"][:2],
                     "chain_head": [list(c[:2]) for c in case["obs"]["chains"][:2]]})
@@ -342,19 +408,22 @@ def _state_key(t):
     return tuple(sorted((e, s.particle.name, float(s.spin_projection)) for e, s in t.states.items()))
 
 
-def oracle_b(chk: common.Check, corpus, rng, with_intensity: bool, n_points: int):
+def oracle_b(chk: common.Check, corpus, rng, with_intensity: bool, n_points: int, pairs=None, cases=()):
     """Two-formalism comparison on the corpus pairs."""
     import sympy as sp
 
     found = []
     done = 0
-    for base in PAIRS:
-        rh = corpus.get(f"{base}.hel.json")
-        rc = corpus.get(f"{base}.can.json")
+    observed = {(c["label"], c["flags"]): c["obs"] for c in cases if c.get("reaction") is not None}
+    for key_h, key_c in (pairs if pairs is not None else ORACLE_B_PAIRS):
+        base = key_h.rsplit(".hel", 1)[0]
+        rh = corpus.get(key_h)
+        rc = corpus.get(key_c)
         if rh is None or rc is None:
             continue
-        obs_h = L.observe(rh, (False, True, None))
-        obs_c = L.observe(rc, (False, False, True))
+        # default naming of both builders (reuse the observation of the correspondence run when there is one)
+        obs_h = observed.get((key_h, (False, True, None))) or L.observe(rh, (False, True, None))
+        obs_c = observed.get((key_c, (False, False, True))) or L.observe(rc, (False, False, True))
         # random LS coefficients
         cvals = {}
         H = defaultdict(complex)
@@ -543,7 +612,8 @@ class C03Property:
                     "(C03_ratio needs the sound rule; see the witness theorem of that rule)")
             cases = correspondence(chk, corpus, variant, common.rng_for(PROP_ID, seed, "synthetic"),
                                    n_synth=120 if thorough else 25, n_shuffled=60 if thorough else 12,
-                                   all_flags=thorough)
+                                   all_flags=thorough, rng_repeated=common.rng_for(PROP_ID, seed, "repeated-decays"),
+                                   n_repeated=40 if thorough else 8)
         except common.LeanRunError as e:
             chk.broken_correspondence("driver", f"Lean driver failed: {e}"[:800])
         except common.InfraError:
@@ -567,7 +637,8 @@ class C03Property:
         try:
             found += oracle_a(chk, cases, common.rng_for(PROP_ID, seed, "oracle-a"))
             found += oracle_b(chk, corpus, common.rng_for(PROP_ID, seed, "oracle-b"), with_intensity=thorough,
-                              n_points=40)
+                              n_points=40, cases=cases,
+                              pairs=ORACLE_B_PAIRS + (ORACLE_B_PAIRS_THOROUGH if thorough else []))
         except Exception as e:  # noqa: BLE001
             found.append({"what": "the real code raised while the property was evaluated",
                           "error": "".join(traceback.format_exception(type(e), e, e.__traceback__))[-1500:]})
@@ -590,8 +661,10 @@ class C03Property:
             "evaluations = correspondence cases (reaction x naming flags; real mapping dict, coefficient symbols and "
             "prefactors read off model.components vs the Lean model) + CG keys re-evaluated by Racah's formula + chain "
             "pairs judged by oracle (a) + chains/points of oracle (b). distinct_nontrivial counts distinct (case, flags) "
-            "with at least one non-identity mapping entry, distinct non-zero CG keys, distinct (reaction, coefficient, "
-            "chain) triples of oracle (b) and at most 50 buckets for the oracle-(a) pairs with a non-empty flip set")
+            "with at least one non-identity mapping entry, distinct (case, flags) in which one decay is flipped at two nodes "
+            "of a chain (counted on the real naming object, compared with the model's count), distinct non-zero CG keys, "
+            "distinct (reaction, coefficient, chain) triples of oracle (b) and at most 50 buckets for the oracle-(a) pairs "
+            "with a non-empty flip set")
         chk.coverage["trusted_base"] = [
             "Lean 4.33 kernel + Mathlib v4.33 (axioms: see axioms_reported)",
             "correspondence harness tools/props/C03.py + tools/corr/C03_lib.py (canonicalisation: exact strings, integers)",
@@ -618,9 +691,15 @@ MANIFEST = {
         "C03_prefactor_is_flipped_product (sound rule: factor of a chain = product of eta over exactly its mapped nodes), "
         "C03_register_unique_partner (the registration loop gives every suffix at most one non-trivially mapped partner, "
         "under the decidable name-consistency condition evaluated on every case), C03_ratio / C03_ratio_int (two chains with "
-        "the same coefficient symbol: prefactor ratio = product of eta over exactly the nodes where they differ). "
+        "the same coefficient symbol: prefactor ratio = product of eta over exactly the nodes where they differ; "
+        "C03_ratio_rule: the same for the three-switch rule the harness drives). The product is over the NODES of a chain, with "
+        "multiplicity: C03_prefactor_append (factor of c1 ++ c2 = product of the factors, any lengths) and "
+        "C03_prefactor_multiplicity (a decay occurring at k nodes contributes eta^k, all k). "
         "Kernel-checked witnesses for both unsound rules the tree has had (C03_witness_all_nodes: J/psi -> Sigma~(1750)- Sigma+, "
-        "Sigma~ -> K0 p~; C03_witness_guard: chi_c1 -> N~(1440)- p, N~ -> pi0 p~). Table-bounded (_partial, spins <= 3, exact "
+        "Sigma~ -> K0 p~; C03_witness_guard: chi_c1 -> N~(1440)- p, N~ -> pi0 p~) and for a rule that merges equal decays of "
+        "one chain (C03_witness_suffix_keyed: chi_c0 -> omega omega -> (gamma pi0)(gamma pi0), factors collected in a dict "
+        "keyed by the coefficient suffix: -1 where the property demands (-1)(-1) = +1); each witness reaction is a probe of the "
+        "variant inference. Table-bounded (_partial, spins <= 3, exact "
         "SymPy values regenerated every run): C03_cg_parity_partial (CG mirror symmetry) and "
         "C03_helicity_coupling_parity_partial (F_{-l1,-l2} = eta F_{l1,l2} for helicity couplings expanded from ANY LS "
         "coefficients with parity-allowed L — the 'equivalently' clause at the level of one node). ALL spins: "
@@ -634,7 +713,8 @@ MANIFEST = {
     "level_note": (
         "Trusted: Lean kernel + Mathlib (axioms propext, Classical.choice, Quot.sound); the correspondence harness and the Lean "
         "interpreter; SymPy's CG values (cross-checked against its independent Racah implementation); qrules objects. "
-        "Modelled: suffix strings, registration loop, prefactor rule (variant inferred by probes). Executed, not modelled: "
+        "Modelled: suffix strings, registration loop, prefactor rule (three switches: per flipped node / guard / per node vs "
+        "per distinct suffix; variant inferred by probes). Executed, not modelled: "
         "sympy Mul flattening of the component expressions (prefactor read off as_coeff_Mul), WignerD evaluation in the "
         "thorough intensity comparison."
     ),
